@@ -11,6 +11,14 @@ Proof. intros H. induction l as [|p l IH]; cbn; [reflexivity|]. rewrite H, IH. r
 Lemma sg_map_none {A} sel (g : A -> entry) l : (forall p, sel (g p) = None) -> sg sel (map g l) [] = [].
 Proof. intros H. unfold sg. induction l as [|p l IH]; cbn; [reflexivity|]. rewrite H. exact IH. Qed.
 
+Lemma in_combine_seq {A} j (l : list A) k x : In (k, x) (combine (seq j (length l)) l) -> j <= k < j + length l /\ nth_error l (k - j) = Some x.
+Proof.
+  revert j; induction l as [|y l IH]; intros j; cbn; [tauto|].
+  intros [H|H].
+  - inversion H; subst. split; [lia|]. rewrite Nat.sub_diag. reflexivity.
+  - apply IH in H as [H1 H2]. split; [lia|]. replace (k - j) with (S (k - S j)) by lia. exact H2.
+Qed.
+
 Definition idx_from (i : nat) (K : pkey) : Prop := exists j, K = PIdx j /\ i <= j.
 
 Section ListNode.
@@ -39,14 +47,6 @@ Lemma added_from_eq ys j : added_from nos ys j q q = map add_entry (combine (seq
 Proof. revert j; induction ys as [|y ys IH]; intros j; cbn; [reflexivity|]. rewrite IH. reflexivity. Qed.
 Lemma removed_from_eq xs j : removed_from nos xs j q q = map rem_entry (combine (seq j (length xs)) xs).
 Proof. revert j; induction xs as [|x xs IH]; intros j; cbn; [reflexivity|]. rewrite IH. reflexivity. Qed.
-
-Lemma in_combine_seq {A} j (l : list A) k x : In (k, x) (combine (seq j (length l)) l) -> j <= k < j + length l /\ nth_error l (k - j) = Some x.
-Proof.
-  revert j; induction l as [|y l IH]; intros j; cbn; [tauto|].
-  intros [H|H].
-  - inversion H; subst. split; [lia|]. rewrite Nat.sub_diag. reflexivity.
-  - apply IH in H as [H1 H2]. split; [lia|]. replace (k - j) with (S (k - S j)) by lia. exact H2.
-Qed.
 
 Lemma added_under ys i : Forall (fun e => under q (idx_from i) (ep1 e)) (added_from nos ys i q q).
 Proof.
